@@ -495,7 +495,10 @@ class ShortReads:
 def gen_file(rng, fmt, nrec):
     """canonical text of a motif file + the expected (name, description, accession, id, counts | frequencies)"""
     out, recs = [], []
+    blank_sep = fmt != "uniprobe" and rng.random() < 0.3
     for r in range(nrec):
+        if blank_sep and r > 0:
+            out.append(rng.choice(["\n", "\n\n", " \n"]))  # blank lines between records (JASPAR downloads)
         w = rng.randint(1, 12)
         ident = "M%05d.%d" % (rng.randrange(99999), rng.randint(1, 9))
         desc = rng.choice([None, "RUNX1", "activator protein %d" % r, "Zn finger caf\u00e9"])
@@ -545,6 +548,8 @@ def gen_file(rng, fmt, nrec):
                 out.append("%s:\t%s\n" % (ch, "\t".join("%.6f" % freqs[i][col] for i in range(w))))
             out.append("\n")
             recs.append(dict(name=ident, freqs=freqs))
+    if blank_sep and rng.random() < 0.5:
+        out.append("\n")
     return "".join(out).encode("utf8"), recs
 
 
